@@ -108,7 +108,36 @@ def epochFailures (b : Nat) (batches : Option Nat) (perm : List Nat) (file : Lis
     (if permOK data got then [] else [if batches.isSome then "truncation" else "row-lost-or-duplicated"])
    else ["misaligned-fields"])
 
+/-- one operation of a session on one dataset object: `mk` | `n<j>` | `f<n>` -/
+def parseSessOp (t : String) : Option SessOp :=
+  if t = "mk" then some .mk
+  else if t.startsWith "n" then (t.drop 1).toNat?.map .next
+  else if t.startsWith "f" then (t.drop 1).toNat?.map .ff
+  else none
+
+def showSessOut : SessOut String → String
+  | .unit => "u"
+  | .stop => "stop"
+  | .noIter => "noiter"
+  | .batch b => "b " ++ " ".intercalate (b.map showCol)
+
+/-- `C20_interleaved` as a decidable check on what the implementation's iterators returned:
+    every iterator yielded a prefix (all of it, if it ran into StopIteration) of one epoch of the
+    sequential stream, in order, no two iterators the same epoch.  Which epoch an iterator owns is
+    NOT prescribed here (the permutation may be drawn when the iterator is created or at its first
+    `next`): any assignment of distinct epochs is accepted. -/
+def assignEpochs : List (List (List (List String)) × Bool) → List (List (List (List String))) → Bool
+  | [], _ => true
+  | (y, stopped) :: rest, eps =>
+    (List.range eps.length).any fun i =>
+      match eps[i]? with
+      | none => false
+      | some e => (if stopped then y == e else y.isPrefixOf e) && assignEpochs rest (eps.eraseIdx i)
+
 /-- ops:
+  `session <b> <batches|none> <k> <perm>*k <table> <op>*`  → `ok <out>;<out>;…`  (`Sess.run`, the draws replayed)
+  `check-session <b> <batches|none> <k> <perm>*k <table> <niters> (<stopped 0|1> <batches>)*niters`
+                                                          → `ok` | `fail iterator-not-an-epoch`
   `stream <b> <batches|none> <k> <perm>*k <table>`        → `ok <batches>*k`   (file dataset, `k` epochs)
   `check-epoch <b> <batches|none> <perm> <table> <batches>` → `ok` | `fail <keys>`
   `cat <n> <buffer>*n`                                    → `ok <flat buffer>`
@@ -117,6 +146,38 @@ def epochFailures (b : Nat) (batches : Option Nat) (perm : List Nat) (file : Lis
   `isperm <n> <perm>`                                     → `true` | `false`
 -/
 def handle : List String → Option String
+  | "session" :: b :: bt :: k :: rest => do
+    let b ← b.toNat?
+    let bt ← parseBatchesOpt bt
+    let k ← k.toNat?
+    let (perms, rest) ← takeN parsePerm k rest
+    let (file, rest) ← parseTable rest
+    let ops ← rest.mapM parseSessOp
+    let R : RNG (List (List Nat)) := { replayRNG with manualSeed := fun _ => perms }
+    let r := Sess.run R (Sess.init (Ds.init R ⟨file, b, bt, 0⟩)) ops
+    pure ("ok " ++ ";".intercalate (r.2.map fun x => showSessOut x.2))
+  | "check-session" :: b :: bt :: k :: rest => do
+    let b ← b.toNat?
+    let bt ← parseBatchesOpt bt
+    let k ← k.toNat?
+    let (perms, rest) ← takeN parsePerm k rest
+    let (file, rest) ← parseTable rest
+    match rest with
+    | n :: rest =>
+      let n ← n.toNat?
+      let rec go : Nat → List String → Option (List (List (List (List String)) × Bool) × List String)
+        | 0, rest => some ([], rest)
+        | m + 1, st :: rest => do
+          let (bs, rest) ← parseBatches file.length rest
+          let (xs, rest) ← go m rest
+          pure ((bs, st == "1") :: xs, rest)
+        | _ + 1, [] => none
+      let (its, rest) ← go n rest
+      if !rest.isEmpty then none else
+      let R : RNG (List (List Nat)) := { replayRNG with manualSeed := fun _ => perms }
+      let eps := Ds.stream R k (Ds.init R ⟨file, b, bt, 0⟩)
+      pure (if assignEpochs its eps then "ok" else "fail iterator-not-an-epoch")
+    | [] => none
   | "stream" :: b :: bt :: k :: rest => do
     let b ← b.toNat?
     let bt ← parseBatchesOpt bt
